@@ -35,6 +35,10 @@ func scenarios(tier string) []vlib.Scenario {
 		// the gorilla back-end: NextWriter does not wait, it closes the writer that is still open
 		out = append(out, vlib.Scenario{Name: params{m, "gorilla", 2, 2}.name(), P: params{m, "gorilla", 2, 2}})
 	}
+	// a message writer whose Close fails (the message is framed and flushed there): Write must say so
+	for _, m := range []string{"off", "pm", "ct"} {
+		out = append(out, vlib.Scenario{Name: params{m, "flushfail", 1, 0}.name(), P: params{m, "flushfail", 1, 0}})
+	}
 	if tier == "thorough" {
 		for _, m := range []string{"off", "pm", "ct"} {
 			out = append(out, vlib.Scenario{Name: params{m, "exclusive", 2, 3}.name(), P: params{m, "exclusive", 2, 3}})
@@ -56,6 +60,8 @@ func config(sc vlib.Scenario, tier string) vsched.Config {
 type frame struct{ data []byte }
 
 type conn struct {
+	failCloseAt int // the n-th message writer fails in Close (nothing is delivered)
+	closes      int
 	gorilla    bool
 	cur        *msgWriter
 	name       string
@@ -86,6 +92,12 @@ func (w *msgWriter) Close() error {
 		return nil
 	}
 	w.closed = true
+	w.c.closes++
+	if w.c.failCloseAt > 0 && w.c.closes == w.c.failCloseAt {
+		// the socket died: small messages are framed and flushed only here, and that fails
+		w.c.writerOpen = false
+		return fmt.Errorf("conn: flush failed: broken pipe")
+	}
 	w.c.peer.in = append(w.c.peer.in, frame{append([]byte{}, w.buf.Bytes()...)})
 	w.c.writerOpen = false
 	return nil
@@ -127,6 +139,10 @@ func (c *conn) CloseWithStatus(transport.CloseStatus) error         { return c.C
 func (c *conn) Ping(context.Context) error                          { return nil }
 
 type world struct {
+	ffErrs   []error
+	ffFramed uint64
+	ffFrames int
+	ffTx     uint64
 	p     params
 	sent  map[string]bool
 	order map[int][]string
@@ -142,7 +158,35 @@ func payload(w, i int) []byte {
 	return []byte(base)
 }
 
+// flushFailMain: one writer, three messages, the second message's writer fails in Close.
+func (w *world) flushFailMain() {
+	a, b := &conn{name: "a", failCloseAt: 2}, &conn{name: "b"}
+	a.peer, b.peer = b, a
+	np := websocket.NegotiationParams{}
+	lvl, bits := 6, 13
+	switch w.p.Mode {
+	case "pm":
+		np.Compress, np.CompressLevel, np.CompressWindowBits = compress.TypePerMessage, &lvl, &bits
+	case "ct":
+		np.Compress, np.CompressLevel, np.CompressWindowBits = compress.TypeContextTakeOver, &lvl, &bits
+	}
+	ta := websocket.New(websocket.Config{Conn: a, NegotiationParams: np})
+	for i := 0; i < 3; i++ {
+		w.ffErrs = append(w.ffErrs, ta.Write(payload(0, i)))
+	}
+	for _, f := range b.in {
+		w.ffFramed += uint64(len(f.data))
+	}
+	w.ffFrames = len(b.in)
+	w.ffTx = ta.TxBytesCounterValue()
+	ta.Close()
+}
+
 func (w *world) main() {
+	if w.p.Contract == "flushfail" {
+		w.flushFailMain()
+		return
+	}
 	a, b := &conn{name: "a", gorilla: w.p.Contract == "gorilla"}, &conn{name: "b", gorilla: w.p.Contract == "gorilla"}
 	a.peer, b.peer = b, a
 	np := websocket.NegotiationParams{}
@@ -197,6 +241,22 @@ func run(sc vlib.Scenario, cfg vsched.Config) (*vsched.Result, vlib.Verdict) {
 	var v vlib.Verdict
 	if res.Outcome == vsched.Panicked {
 		v.Fail("C13.concurrent.panic", res.Panic.Site, "panic: %s", res.Panic.Value)
+		return res, v
+	}
+	if w.p.Contract == "flushfail" && res.Outcome == vsched.Completed {
+		nilWrites := 0
+		for _, e := range w.ffErrs {
+			if e == nil {
+				nilWrites++
+			}
+		}
+		if nilWrites != w.ffFrames {
+			v.Fail("C13.write-result", fmt.Sprintf("%s/nil-for-undelivered", w.p.Mode), "%d Writes returned nil but %d messages were framed onto the connection (results %v; the second message's writer failed when it was closed)", nilWrites, w.ffFrames, w.ffErrs)
+		}
+		if w.ffTx != w.ffFramed {
+			v.Fail("C13.counter", fmt.Sprintf("%s/tx", w.p.Mode), "TxBytesCounterValue is %d, %d bytes were framed", w.ffTx, w.ffFramed)
+		}
+		v.Outcome = fmt.Sprintf("frames=%d tx=%d", w.ffFrames, w.ffTx)
 		return res, v
 	}
 	if res.Outcome != vsched.Completed {
